@@ -20,7 +20,7 @@ EXCLUDE = ['util/crc32c.c']
 def table_part(chk, tier, rng, unit):
     import gens_table
     big = tier == 'thorough'
-    n = 60 if not big else 1500
+    n = 60 if not big else 300
     cases = (gens_table.gen_table_build(rng.fork('b'), n, big) + gens_table.gen_table_scan(rng.fork('s'), n, big) +
              gens_table.gen_table_ops(rng.fork('o'), n) + gens_table.gen_table_get(rng.fork('g'), n))
     run_cases(chk, cases, unit)
@@ -33,11 +33,11 @@ def run(tier):
     lean_stage(chk, THEOREMS, IMPORTS, TARGETS)
     big = tier == 'thorough'
     cases = [Case('corpus', r) for r in load_corpus(PID)]
-    cases += gens_block.gen_block_valid(rng.fork('block'), 500 if not big else 12000)
-    cases += gens_filter.gen_bloom(rng.fork('bloom'), 150 if not big else 3000) + gens_filter.gen_filter_block(rng.fork('fb'), 150 if not big else 3000)
+    cases += gens_block.gen_block_valid(rng.fork('block'), 500 if not big else 3000)
+    cases += gens_filter.gen_bloom(rng.fork('bloom'), 150 if not big else 1000) + gens_filter.gen_filter_block(rng.fork('fb'), 150 if not big else 1000)
     cases += gens_filter.gen_handle_footer(rng.fork('hf'), 100 if not big else 2000) + gens_filter.gen_hash(rng.fork('hash'), 60 if not big else 1000)
-    cases += gens_snappy.gen_snappy_enc(rng.fork('snappy'), 250 if not big else 5000, big)
-    cases += gens.gen_ikey(rng.fork('ikey'), 150 if not big else 5000)
+    cases += gens_snappy.gen_snappy_enc(rng.fork('snappy'), 250 if not big else 1500, big)
+    cases += gens.gen_ikey(rng.fork('ikey'), 150 if not big else 2000)
     cases += gens.separators_exhaustive([0, 1, 0xfe, 0xff], 3 if not big else 4)
     chk.rules.append('built blocks (0..400 entries, long shared prefixes, 0xFF runs, empty key, internal keys, restart interval 1..32) with iterator walks biased to direction changes; '
                      'bloom/filter blocks over 0..2000 keys, bits 1..20, offsets spanning several 2 KiB ranges; handles/footers; Snappy on random/periodic/mixed inputs around 64 KiB block '
